@@ -54,23 +54,23 @@ PROPS = {
     "C10": {
         "lean": ["FH.Props.C10"],
         "engines": ["rule", "hist"],
-        "level_text": "Theorems: per-step progress facts for every rule and a walk-level no-repeat/termination theorem by a lexicographic argument over (sp, address); correspondence + direct per-step progress oracle on the implementation.",
+        "level_text": "Theorems: per-step progress facts for every rule and for the uncacheable DWARF path of both architectures with any row (C10_x64_generic_caller_step, C10_a64_generic_caller_step: a successful caller-frame step strictly increases sp or, on aarch64, ends the walk), for interpreted PE steps (C03_interpreted_step_commits_progress), and a walk-level no-repeat/termination theorem by a lexicographic argument over (sp, address); correspondence + direct per-step progress oracle on the implementation.",
         "level_note": _NOTE,
         "statement": "Caller-frame rule steps never decrease sp, frame-pointer steps strictly increase it, success never leaves (sp, address) unchanged; along any walk no (address, sp) state repeats and walks have bounded length. aarch64: sp strictly increases in every caller-frame step.",
     },
     "C11": {
         "lean": ["FH.Props.C11"],
         "engines": ["rule", "hist", "scn"],
-        "level_text": "Theorems: no null frame, error address is an unreadable address, for all rules/registers/readers; correspondence + direct oracle using a recording stack reader.",
+        "level_text": "Theorems: no null frame, error address is an unreadable address, for all rules/registers/readers; Ok(None) only at a root marker - a rule step of either architecture completes the walk only through the return-address-undefined rule, a null frame pointer the rule follows / reads, or a null (stripped) return address (C11_x64_done_only_at_root_marker, C11_a64_done_only_at_root_marker), and the undefined-return-address rules do complete it; truncation at step and walk level; correspondence + direct oracle using a recording stack reader.",
         "level_note": _NOTE,
         "statement": "Rule-based steps never return a null frame; an Err(CouldNotReadStack(a)) names an address whose read failed; truncating the readable stack at any cut yields a prefix of the frames followed by such an error (walk-level theorem for arbitrary rule assignments, both architectures); a null return address is the end of the stack on every path.",
     },
     "C16": {
         "lean": ["FH.Props.C16"],
         "engines": ["rule", "hist"],
-        "level_text": "Theorems: stripping of the returned address and of lr for every rule and outcome; from_max_known_address preserves all addresses up to its argument (all 65 leading-zero classes by a kernel-checked table + lemma); correspondence + direct bit oracle.",
+        "level_text": "Theorems: stripping of the returned address and of lr for every rule and outcome; signed stacks: a stack whose saved return addresses carry any bits outside the mask gives the identical step - result and registers - as the unsigned stack, for every rule (C16_signed_step_equals_unsigned) and for the uncacheable DWARF path with any row (C16_signed_generic_step_equals_unsigned), and hence the identical walk of any length under any assignment of rules to frames (C16_signed_walk_equals_unsigned, induction over the walk), provided no word read as a saved frame pointer is a signed word; from_max_known_address preserves all addresses up to its argument (all 65 leading-zero classes by a kernel-checked table + lemma); correspondence + direct bit oracle + signed twins.",
         "level_note": _NOTE,
-        "statement": "Every return address reported by an aarch64 rule step and the lr left in the register set have no bits outside the mask; from_max_known_address preserves every address up to its argument, including 0; constructors are total.",
+        "statement": "Every return address reported by an aarch64 rule step and the lr left in the register set have no bits outside the mask; a signed stack unwinds exactly like the unsigned one (step and walk level); from_max_known_address preserves every address up to its argument, including 0; constructors are total.",
     },
     "C06": {
         "lean": ["FH.Props.C06"],
@@ -140,15 +140,15 @@ PROPS = {
     "C08": {
         "lean": ["FH.Props.C08"],
         "engines": ["scn", "hist", "macho", "pe"],
-        "level_text": "Theorems: the module search is translation invariant (same index and relative address for range, base and address moved together), the unwind plan does not look at mapped addresses, hence the rule for a relocated address under relocated modules is the original rule; stack relocation is proved at the level of the DWARF step (dwarfSpec, identified with both execution paths by C05) for consistently relocated stack words (partial: the whole-walk statement under stack relocation is established by the engine's relocation twins, not by a theorem). Tie: the same program mapped at four different load addresses / stack placements / presentations (incl. crossing 2^63, non-zero stated base, range starting above the base, absolute/pc-relative/text-relative pointer encodings) must unwind to the same frames up to the shifts. The macho and pe engines replay every ground-truth walk of a Mach-O module / PE image at a second base address and stack (user-space and kernel-style placements whose slide does not fit an i64) and require the frames to differ by exactly the shift.",
+        "level_text": "Theorems: the module search is translation invariant (same index and relative address for range, base and address moved together), the unwind plan does not look at mapped addresses, hence the rule for a relocated address under relocated modules is the original rule. Stack relocation: for every rule of both architectures, the step on the relocated thread state (stack d bytes higher, every stored word moved by an injective map that fixes 0 - stack pointers by d, code pointers with their module) is the relocated outcome of the original step - frames mapped, sp moved by d, all other registers relocated words (also after errors), the address named by CouldNotReadStack d higher, end of stack and the other errors unchanged (C08_x64_rule_step_relocation, C08_a64_rule_step_relocation; all narrowing, the pop loop and the pointer-auth strip included); lifted by induction to walks of any length under any assignment of rules to frames (C08_x64_walk_relocation, C08_a64_walk_relocation). Hypotheses, stated in the theorems: 2^20 bytes of room to both ends of the 64-bit range before and after the move, a frame pointer the rule follows is a stack pointer (or null on x86-64), on aarch64 the saved caller frame pointer is a stack pointer or null and relocation commutes with stripping. The uncacheable DWARF path is covered at the level of the DWARF step (dwarfSpec, identified with both execution paths by C05; C08_dwarf_step_stack_relocation_partial). Tie: the same program mapped at four different load addresses / stack placements / presentations (incl. crossing 2^63, non-zero stated base, range starting above the base, absolute/pc-relative/text-relative pointer encodings) must unwind to the same frames up to the shifts. The macho and pe engines replay every ground-truth walk of a Mach-O module / PE image at a second base address and stack (user-space and kernel-style placements whose slide does not fit an i64) and require the frames to differ by exactly the shift.",
         "level_note": _NOTE,
-        "statement": "Position independence: module relocation (full, model level) and stack relocation (step level).",
+        "statement": "Position independence: module relocation (full, model level); stack relocation of every rule step and of whole rule-based walks (both architectures, all outcomes), of the uncacheable DWARF path at step level.",
     },
     "C12": {
         "lean": ["FH.Props.C12"],
         "engines": ["scn", "hist", "row"],
-        "level_text": "Theorems: the three presentations resolve every relative address identically (hence the same plan); for pairwise disjoint FDEs in any section order the lookup finds the FDE covering the address (stable sort by start + last-start-not-above search, proved against containment); section order is irrelevant; addresses no FDE covers never get a row, in every presentation. Tie: every generated module is written in one of the three presentations with shuffled FDE order, several CIEs and mixed pointer encodings; the scn twins compare presentations directly.",
-        "level_note": _NOTE + " gimli's EhHdrTable::lookup is trusted to return the last table entry whose initial location is not above the address (first entry if none); the table is written sorted, as linkers do.",
+        "level_text": "Theorems: the three presentations resolve every relative address identically (hence the same plan); for FDEs whose non-empty ranges are pairwise disjoint, in any section order, the lookup finds the FDE covering the address (stable sort by start + last-start-not-above search, proved against containment); FDEs of length zero never influence a lookup, wherever they sit (C12_zero_length_fdes_are_ignored; the code was repaired for this, e92347e); section order is irrelevant; addresses no FDE covers never get a row, in every presentation. Tie: every generated module is written in one of the three presentations with shuffled FDE order, several CIEs and mixed pointer encodings; the scn twins compare presentations directly.",
+        "level_note": _NOTE + " gimli's EhHdrTable::lookup is trusted to return the last table entry whose initial location is not above the address (first entry if none); the table is written sorted and lists the FDEs that cover code (not zero-length leftovers), as a search table with distinct keys must.",
         "statement": "Same CFI, any presentation.",
     },
     "C02": {
@@ -185,7 +185,7 @@ PROPS = {
     "C03": {
         "lean": ["FH.Props.C03"],
         "engines": ["pe", "asm"],
-        "level_text": "Theorems: an address without a function table entry is a frameless leaf; PE on aarch64 falls back; the cacheable rule OffsetSpAndPopRegisters performs exactly the documented procedure for push/alloc prologs (popSpec over unbounded naturals) and so does the operation interpreter on the same prolog - compression is lossless (given the register-order round trip, which is kernel-checked only up to length 2 here and exhaustively tested on the implementation for all 109 601 orderings); interpreted steps are all-or-nothing, advance rsp in caller frames and set ip; framehop's own epilog simulation never panics. Tie: pe engine - ground-truth walks at every instruction boundary of synthesized PE programs, per-step comparison with the Lean model (plan + interpreter incl. pe-unwind-info's resolve_operation) and with pe-unwind-info's reference implementation of the Microsoft unwind procedure on arbitrary registers and stacks.",
+        "level_text": "Theorems: an address without a function table entry is a frameless leaf; PE on aarch64 falls back; the cacheable rule OffsetSpAndPopRegisters performs exactly the documented procedure for push/alloc prologs (popSpec over unbounded naturals) and so does the operation interpreter on the same prolog - compression is lossless (the register-order encoding round-trips for every sequence encode accepts, proved from its mixed-radix structure; all 109 601 orderings are also swept on the implementation); exact in the body for the standard prolog with every kind of unwind code (C03_body_unwind_is_the_procedure: for a frame laid out as the Microsoft documentation describes `push...; sub rsp; lea fr,[rsp+fo]; mov [rsp+off], r...`, from any register values in the body - any rsp when a frame register is set - interpreting SAVE_NONVOL / SET_FPREG / ALLOC / PUSH_NONVOL restores the mov-saved registers from their slots, re-establishes rsp and performs the documented pop procedure); interpreted steps are all-or-nothing, advance rsp in caller frames and set ip; framehop's own epilog simulation never panics. Tie: pe engine - ground-truth walks at every instruction boundary of synthesized PE programs, per-step comparison with the Lean model (plan + interpreter incl. pe-unwind-info's resolve_operation) and with pe-unwind-info's reference implementation of the Microsoft unwind procedure on arbitrary registers and stacks.",
         "level_note": _NOTE + " pe-unwind-info's parsers (function table lookup, UNWIND_INFO parsing, unwind code iteration, epilog instruction parsing) are outside the model; the model takes their output, recomputed by the harness with the real parsers. Known finding F8-dep (C09): unchecked arithmetic inside pe-unwind-info's resolve_operation.",
         "statement": "PE x64: leaf rule without table entry; pop-rule compression lossless; interpreter and rule equal the documented procedure; progress and atomicity of interpreted steps.",
     },
